@@ -173,6 +173,8 @@ pub fn gen_random(seed: u64, idx: u64) -> Plan {
                 let dur = u64::from(w.steps) * w.step_ms;
                 longest = longest.max(dur);
                 let mut h = w.h2(j, r.range(0, 30));
+                // half of the uploads do not announce their length
+                h.no_length = w.body.is_some() && r.chance(1, 2);
                 if w.panic_at == 0 && r.chance(1, 4) {
                     // the client resets this one stream; its siblings and the
                     // connection stay
